@@ -1498,7 +1498,10 @@ Inputs:
     import numpy as np
     x,w = _sort(samples,weights)
     s = sum(w)
-    return np.mean(x[s/2. - np.cumsum(w) <= 0][0:2-x.size%2])
+    c = np.cumsum(w)
+    # average two points only if exactly half of the weight is below the first
+    n = 2 if (c == s/2.).any() else 1
+    return np.mean(x[s/2. - c <= 0][0:n])
 
 
 def mad(samples, weights=None): #, scale=1.4826):
